@@ -507,6 +507,7 @@ where
     let queue: Mutex<(VecDeque<Vec<usize>>, usize)> = Mutex::new((VecDeque::from(vec![vec![]]), 0));
     let cv = Condvar::new();
     let stats = Mutex::new(ExploreStats::default());
+    let truncated = std::sync::atomic::AtomicBool::new(false);
     let cap: u64 = std::env::var("BPPMC_SCHEDULE_CAP").ok().and_then(|s| s.parse().ok()).unwrap_or(2_000_000);
     std::thread::scope(|s| {
         for _ in 0..workers.max(1) {
@@ -541,6 +542,12 @@ where
                         st.max_points = st.max_points.max(x.points.len());
                         if x.stolen > 0 {
                             st.stolen += 1;
+                            // every intervention costs seconds of wall time: a tree on which threads keep blocking outside the
+                            // scheduler's control gets a process-wide budget, after which explorations are cut short and say so
+                            let n = WATCHDOG_INTERVENTIONS.fetch_add(1, std::sync::atomic::Ordering::SeqCst) + 1;
+                            if n > watchdog_budget() {
+                                truncated.store(true, std::sync::atomic::Ordering::SeqCst);
+                            }
                         }
                         if x.stolen > 0 && (x.diverged.is_some() || x.deadlock) {
                             // the watchdog intervened (a thread stopped reporting): the execution is not a controlled replay;
@@ -590,16 +597,32 @@ where
                     },
                 }
                 let mut q = queue.lock().unwrap();
-                q.0.extend(children);
+                if truncated.load(std::sync::atomic::Ordering::SeqCst) {
+                    q.0.clear();
+                } else {
+                    q.0.extend(children);
+                }
                 q.1 -= 1;
                 cv.notify_all();
             });
         }
     });
     let mut st = stats.into_inner().unwrap();
+    if truncated.load(std::sync::atomic::Ordering::SeqCst) {
+        st.machinery.push(format!(
+            "exploration cut short: the watchdog had to intervene more than {} times in this process (threads block outside the scheduler's control); {} schedules were run",
+            watchdog_budget(),
+            st.schedules
+        ));
+    }
     st.violations.sort();
     st.machinery.sort();
     st
+}
+
+static WATCHDOG_INTERVENTIONS: std::sync::atomic::AtomicU64 = std::sync::atomic::AtomicU64::new(0);
+fn watchdog_budget() -> u64 {
+    std::env::var("BPPMC_WATCHDOG_BUDGET").ok().and_then(|s| s.parse().ok()).unwrap_or(40)
 }
 
 // ---------------------------------------------------------------------------------------------------------------
